@@ -18,7 +18,7 @@ ASSUMPTIONS = ["names are handed to the builder as str; labels are compared as U
 
 # staged features (switched on by the commits that bring the model side / the known-findings entry)
 SEND_PATH = True     # C14: follow the datagrams through Zeroconf.async_send (needs the driver command `sendlens`)
-RETRY_CHECK = False  # packets() again on a builder that rejected the message
+RETRY_CHECK = True   # C01: packets() again on a builder that rejected the message (finding C01-retry)
 
 EXC = {"NamePartTooLongException": "NamePartTooLongException", "IndexError": "IndexError", "error": "struct.error", "ValueError": "ValueError"}
 
@@ -396,7 +396,7 @@ def run_prop(ctx, prop, size_bias=None):
     # the send path (C14: `Zeroconf.async_send` is an anchored mechanism): what leaves for the datagrams the builder made
     sent = [impl_send(o) if (SEND_PATH and prop == "C14" and ik == "ok" and o is not None) else None for o, (ik, _) in zip(outs, impl)]
     # a rejected message, asked again
-    again = [impl_again(o) if (RETRY_CHECK and ik == "err" and iv == "NamePartTooLongException" and o is not None and m.in_quantifier()) else None
+    again = [impl_again(o) if (RETRY_CHECK and prop == "C01" and ik == "err" and iv == "NamePartTooLongException" and o is not None and m.in_quantifier()) else None
              for o, (ik, iv), (_, m) in zip(outs, impl, cases)]
     del outs
     lines = []
